@@ -372,4 +372,85 @@ func c11(x *Ctx) {
 		})
 	}
 	c.Min(rF, 6)
+
+	// ---- the random keep is drawn with the rate that is reported ----------------------------------------------
+	// (for the dynsampler-backed samplers: keep ⇔ rand.Intn(rate) == 0 with the floored rate that is returned; a
+	// draw made on the value before the floor reports rate 1 for traces it never keeps)
+	const rK = "C11.keep-drawn-with-returned-rate"
+	for _, f := range x.implementations("sample", "Sampler", "GetSampleRate", "sample") {
+		tn := typeString(f.Signature.Recv().Type())
+		if !strings.Contains(tn, "Dynamic") && !strings.Contains(tn, "Throughput") {
+			continue
+		}
+		var draws []ssa.CallInstruction
+		eng.Instrs(f, func(in ssa.Instruction) {
+			if cl, ok := eng.IsCall(in, "math/rand.Intn", "math/rand/v2.IntN", "math/rand.Int63n"); ok {
+				draws = append(draws, cl)
+			}
+		})
+		if len(draws) == 0 {
+			continue
+		}
+		c.Examined++
+		rates := returnedValues(f, 0)
+		same := func(a, b ssa.Value) bool {
+			a, b = eng.StripConv(a), eng.StripConv(b)
+			if a == b {
+				return true
+			}
+			// through a floor helper: rateAtLeastOne(x) on both sides
+			return false
+		}
+		ok := true
+		for _, d := range draws {
+			arg := eng.CallArgs(d)[0]
+			for _, rv := range rates {
+				if !same(arg, rv) {
+					ok = false
+				}
+			}
+		}
+		c.Decide(ok, rK, tn, x.PosOf(f.Pos()), "rand.Intn is drawn on the very rate that is returned",
+			"the random keep in "+tn+" is drawn on a different value than the sample rate it returns (e.g. the rate before the floor of 1): traces for which the dynsampler has no rate yet are reported with rate 1 and never kept")
+	}
+	c.Min(rK, 5)
+
+	// ---- "already seen" is always answered by the field's own set ---------------------------------------------------
+	const rS = "C11.seen-per-field"
+	if af := x.Fn(rS, "sample", "distinctValue", "AddAsString"); af != nil && len(af.Params) >= 3 {
+		idx := af.Params[2]
+		valuesF := eng.FieldIs("sample", "distinctValue", "values")
+		// a look-up in values[fieldIdx]
+		isFieldLookup := func(in ssa.Instruction) bool {
+			lk, ok := in.(*ssa.Lookup)
+			if !ok {
+				return false
+			}
+			_, d := eng.Derives(lk.X, func(v ssa.Value) bool {
+				ia, ok := v.(*ssa.IndexAddr)
+				return ok && loadsField(ia.X, valuesF) && ia.Index == ssa.Value(idx)
+			}, eng.FlowOpts{})
+			return d
+		}
+		c.Examined++
+		r := eng.Explore(eng.Query{Fn: af, TrackPhi: func(*ssa.Phi) bool { return true }, Classify: func(in ssa.Instruction, _ eng.Facts) eng.Event {
+			if isFieldLookup(in) {
+				return eng.EvSink
+			}
+			return eng.EvNone
+		}})
+		bad := false
+		var path []*ssa.BasicBlock
+		for _, e := range r.Exits {
+			if _, isRet := e.Instr.(*ssa.Return); isRet && e.Sinks == 0 {
+				bad, path = true, e.Path
+			}
+		}
+		if bad {
+			o := c.Violate(rS, "AddAsString", x.PosOf(af.Pos()), "AddAsString can answer (return) without having consulted the set of the field it was called for – a shortcut such as 'same as the previous value' that ignores the field index: a value seen for one field is then dropped for the next field, so the key depends on the order of the spans")
+			o.Path = eng.DescribePath(x.P.Pos, path)
+		} else {
+			c.Hold(rS, "AddAsString", x.PosOf(af.Pos()), "every answer follows a look-up in values[fieldIdx]")
+		}
+	}
 }
